@@ -815,6 +815,7 @@ theorem step_ops (S : CStore) (A : Op → Prop) (y : Sys S) (lbl : Lbl)
         split at hev
         · simp only [List.mem_singleton] at hev; subst hev; exact hAt
         · simp at hev
+      simp only []
       split
       · rename_i l' hr
         refine ⟨?_, ?_⟩
